@@ -26,13 +26,16 @@ SolveObs(e) ==
       B == [i \in 1..m |-> Abstract(e.b[i], NS)]
       R == [i \in 1..m |-> Resid(A[i], X, B[i], NS)]
       S == [i \in 1..m |-> Scale(A[i], X, B[i], NS)]
-  IN /\ Len(e.x) = n /\ \A j \in 1..n : IsNum(e.x[j]) /\ e.x[j].k = e.kind /\ ShapeOK(e.x[j])
-     /\ IF ~e.lsq THEN \A i \in 1..m : IsZero(R[i], S[i], NS, e.kind)
+      \* kinds N1 / N2: the generic Number container holding floats and first- (second-) order numbers side by side
+      jk == IF e.kind \in {"D1", "N1"} THEN "D1" ELSE IF e.kind \in {"D2", "N2"} THEN "D2" ELSE "F"
+  IN /\ Len(e.x) = n /\ \A j \in 1..n : IsNum(e.x[j]) /\ ShapeOK(e.x[j])
+                                     /\ (IF e.kind \in {"N1", "N2"} THEN e.x[j].k \in {"F", jk} ELSE e.x[j].k = e.kind)
+     /\ IF ~e.lsq THEN \A i \in 1..m : IsZero(R[i], S[i], NS, jk)
         ELSE \A k \in 1..n :                                  \* normal equations: sum_i a_ik * r_i = 0
                LET col == [i \in 1..m |-> A[i][k]]
                    N == DotAcc(col, R, 1, Const(FZ, NS), NS)
                    NSc == DotAcc([i \in 1..m |-> AbsA(col[i], NS)], S, 1, Const(FZ, NS), NS)
-               IN IsZero(N, NSc, NS, e.kind)
+               IN IsZero(N, NSc, NS, jk)
 \* the solution of the row-permuted system agrees with the solution (to the conditioning of the generated systems)
 PermObs(e) == /\ e.o2 = "ok" /\ Len(e.x2) = Len(e.x)
               /\ LET NS == AllNames(e) \cup UNION {NamesOf(e.x2[j]) : j \in 1..Len(e.x2)} IN
